@@ -258,8 +258,8 @@ class Args:
 
 # ----------------------------------------------------------------------------------------------- contract
 class Case:
-  def __init__(self, name, params, pre=None, witness=None):
-    self.name, self.params, self.pre, self.witness = name, params, pre, witness
+  def __init__(self, name, params, pre=None, witness=None, never_returns=False):
+    self.name, self.params, self.pre, self.witness, self.never_returns = name, params, pre, witness, never_returns
 
 
 class Returns:
@@ -597,7 +597,23 @@ def body_obligations(prog, contract, lib=None, contracts=None, config=None, loop
       else:
         raise Undecided('%s: path ends in %s' % (contract.target, oc[0]))
     report['cases'][case.name]['seen'] = sorted(seen_outcomes)
+    # vacuity / reachability guard: a case must reach a normal return unless the contract says it never returns
+    expects_return = not getattr(case, 'never_returns', False) and not any(
+        _rc(c)[0] == 'iff' and _rc(c)[1] is not None and _always(_rc(c)[1], a0) for c in contract.raises.values())
+    if expects_return and contract.ensures:
+      obls.append(Obligation('%s[%s]/reachability.some-path-returns' % (contract.target, case.name), 'vacuity', [],
+                             z3.BoolVal('return' in seen_outcomes), dict(seen=sorted(seen_outcomes))))
   return obls, report
+
+
+def _always(fn, a):
+  try:
+    c = fn(a)
+  except Exception:
+    return False
+  if c is True:
+    return True
+  return z3.is_expr(c) and z3.is_true(z3.simplify(c))
 
 
 def outcome_sig_oc(oc):
